@@ -794,6 +794,13 @@ static void dnfPairEv(const char *ev, DNF x, DNF y)
 	Eend();
 }
 
+/* the operands of a pair case: the formula and the DNF built for it (no verdict: it lets the trace
+ * specification tell the DNFs the pinned constructors build from others) */
+static void dnfMkQEv(DNF d)
+{
+	Ebegin("DMkQ"); E(",\"f\":[%s]", fjson); OBS(E(",\"r\":"); dnfJson(d)); Eend();
+}
+
 static int bothWays;              /* 'q' cases (random pairs): test both directions */
 
 static void dnfCaseQ(char **tok, int n)
@@ -802,11 +809,13 @@ static void dnfCaseQ(char **tok, int n)
 	for (semi = 0; semi < n && strcmp(tok[semi], ";"); semi++) ;
 	if (semi >= n) { fprintf(stderr, "containers_drv: Q case without ;\n"); _exit(2); }
 	quiet = 1; dnfFailed = 0;
-	ftok = tok; fpos = 0; fcnt = semi; fjl = 0; x = dnfBuild();
+	ftok = tok; fpos = 0; fcnt = semi; fjl = 0; fjson[0] = 0; x = dnfBuild();
 	if (dnfFailed || !x) return;
-	ftok = tok + semi + 1; fpos = 0; fcnt = n - semi - 1; fjl = 0; y = dnfBuild();
+	quiet = 0; dnfMkQEv(x); quiet = 1; if (dirty) return;
+	ftok = tok + semi + 1; fpos = 0; fcnt = n - semi - 1; fjl = 0; fjson[0] = 0; y = dnfBuild();
 	if (dnfFailed || !y) return;
 	quiet = 0;
+	dnfMkQEv(y); if (dirty) return;
 	dnfPairEv("DImp", x, y); if (dirty) return;
 	dnfPairEv("DEq", x, y);  if (dirty) return;
 	if (bothWays || caseNo % 16 == 0) {       /* the exhaustive pair set is ordered, so (y,x) is a case of its own */
